@@ -13,7 +13,7 @@
 From ClapModel Require Import Base.Bytes Base.Machine Parse.Cmd Parse.Build Parse.Valid Parse.Matcher Parse.Errors Parse.Validator Parse.Parser.
 From ClapModel Require Import ParseProofs.Spelling.
 From ClapModel Require ParseProofs.Dispatch ParseProofs.ChainWide Complete.EngineProofs Complete.EngineLevel.
-From ClapModel Require Import Gen.HelpTables Help.UsageModel Help.HelpModel Help.HelpReqs Help.HelpProofs Help.HelpLevel Help.HelpSpecVals Help.HelpDispatch Help.HelpUsage Help.HelpGlobals Help.HelpTemplate Help.HelpHeadings Help.HelpRefsBuild Help.HelpFlagGen Help.HelpUnbuilt Help.HelpChainWide Help.HelpSubcommand Help.HelpUsageExact.
+From ClapModel Require Import Gen.HelpTables Help.UsageModel Help.HelpModel Help.HelpReqs Help.HelpProofs Help.HelpLevel Help.HelpSpecVals Help.HelpDispatch Help.HelpUsage Help.HelpGlobals Help.HelpTemplate Help.HelpHeadings Help.HelpRefsBuild Help.HelpFlagGen Help.HelpUnbuilt Help.HelpChainWide Help.HelpSubcommand Help.HelpUsageExact Help.HelpFlatten Help.HelpFlattenProofs Help.HelpFlattenExamples.
 From RecordUpdate Require Import RecordSet.
 Import RecordSetNotations.
 Open Scope N_scope.
@@ -791,3 +791,182 @@ Theorem C12_usage_hidden_required_target_mentioned :
     /\ usage_pieces rt_built = Some [[112]; [45; 45; 122]; [45; 45; 114; 32; 60; 114; 62]].
 Proof. exact hidden_required_target_mentioned. Qed.
 Print Assumptions C12_usage_hidden_required_target_mentioned.
+
+(** ---- round 5: [Command::flatten_help] (Help/HelpFlatten.v, HelpFlattenProofs.v, HelpFlattenExamples.v) ----
+    [hc_flatten] is the setting; [flat_cond c] = the level has visible subcommands and the setting (the test of
+    [write_help_usage] and [write_all_args]); [h_build] is [Command::build] (recursive build with the expanded help
+    tree, then [_build_bin_names_internal]) on the clone; [usage_lines fuel c] are the lines of the usage block (each a
+    list of pieces), [write_flat_subcommands] the flattened sections of the built clone, [write_help_flat] the screen. *)
+
+(** without the setting (or without visible subcommands) the flattened writer is [write_help] *)
+Theorem C12_flatten_off_same : forall dw c use_long w,
+  flat_cond c = false -> write_help_flat dw c use_long w = option_map embed_screen (write_help dw c use_long w).
+Proof. exact flat_off_same. Qed.
+Print Assumptions C12_flatten_off_same.
+
+(** one level: the own line (iff [own_cond]: not [subcommand_required], or [args_conflicts_with_subcommands]), then
+    EXACTLY one line per subcommand of the built clone that is not hidden, in order, which is that subcommand's usage
+    and starts with its usage name; a hidden subcommand has no line ([visible_subs] is the filter) *)
+Theorem C12_flatten_usage_lines : forall f c b ls,
+  flat_cond c = true -> h_build c = Some b ->
+  (forall sc, In sc (visible_subs b) -> flat_cond sc = false) ->
+  usage_lines (S f) c = Some ls ->
+  exists own lines, ls = own ++ lines
+    /\ (if own_cond c then exists u, write_arg_usage c true = Some u /\ own = [u] else own = [])
+    /\ Forall2 (fun sc ln => usage_pieces sc = Some ln
+                             /\ (usage_name_fallback sc <> [] -> exists rest, ln = usage_name_fallback sc :: rest))
+               (visible_subs b) lines.
+Proof. exact usage_lines_one_level. Qed.
+Print Assumptions C12_flatten_usage_lines.
+
+Theorem C12_flatten_usage_count : forall f c b ls,
+  flat_cond c = true -> h_build c = Some b ->
+  (forall sc, In sc (visible_subs b) -> flat_cond sc = false) ->
+  usage_lines (S f) c = Some ls ->
+  length ls = ((if own_cond c then 1 else 0) + length (visible_subs b))%nat.
+Proof. exact usage_lines_count. Qed.
+Print Assumptions C12_flatten_usage_count.
+
+(** what [build()] makes of the subcommands of a built level: name, [hide], [flatten_help] kept; the usage name is
+    [bin name of the level ++ mid_string ++ {name|--long|-s}] unless the subcommand had one *)
+Theorem C12_flatten_build_names : forall c b, hc_built c = true -> h_build c = Some b ->
+  exists mid, h_mid_string c = Some mid /\ hd_of b = hd_of c /\ hc_args b = hc_args c
+    /\ Forall2 (fun sc sb => hc_name sb = hc_name sc /\ hc_hide sb = hc_hide sc /\ hc_flatten sb = hc_flatten sc
+                             /\ usage_name_fallback sb = built_usage_name c mid sc)
+               (hc_subs c) (hc_subs b).
+Proof. exact h_build_names. Qed.
+Print Assumptions C12_flatten_build_names.
+
+(** the headline, in terms of the level [write_help] sees: a built level with the setting whose subcommands are not
+    flattened themselves and carry no usage name yet.  One line per subcommand of [c] that is not hidden (the generated
+    [help] included), in order, starting with [bin name of c ++ " " ++ required arguments of c ++ {name|--long|-s}];
+    none for a hidden subcommand *)
+Theorem C12_flatten_usage_heads : forall f c ls,
+  hc_built c = true -> flat_cond c = true ->
+  (forall sc, In sc (hc_subs c) -> hc_flatten sc = false /\ hc_usage_name sc = None) ->
+  usage_lines (S f) c = Some ls ->
+  exists mid own lines, h_mid_string c = Some mid /\ ls = own ++ lines
+    /\ (if own_cond c then exists u, write_arg_usage c true = Some u /\ own = [u] else own = [])
+    /\ Forall2 (fun sc ln => exists rest, ln = (bin_name_fallback c ++ mid ++ sc_usage_names sc) :: rest)
+               (visible_subs c) lines.
+Proof. exact flat_usage_heads. Qed.
+Print Assumptions C12_flatten_usage_heads.
+
+(** nested flattening, to the depth the code goes: the lines of the block are exactly the lines of the nodes that
+    [writes] reaches -- through subcommands of the built clones that are NOT hidden, below flattened nodes only *)
+Theorem C12_flatten_usage_sound : forall f c ls, usage_lines f c = Some ls ->
+  forall l, In l ls -> exists x, writes c x /\ is_line x l.
+Proof. exact usage_lines_sound. Qed.
+Print Assumptions C12_flatten_usage_sound.
+
+Theorem C12_flatten_usage_complete : forall c x, writes c x ->
+  forall f ls, usage_lines f c = Some ls -> exists l, In l ls /\ is_line x l.
+Proof. exact usage_lines_complete. Qed.
+Print Assumptions C12_flatten_usage_complete.
+
+Theorem C12_flatten_line_head : forall x l,
+  is_line x l -> usage_name_fallback x <> [] -> exists rest, l = usage_name_fallback x :: rest.
+Proof. exact is_line_head. Qed.
+Print Assumptions C12_flatten_line_head.
+
+(** below the own line the block is a function of the built clone only *)
+Theorem C12_flatten_usage_of_built : forall f c b,
+  flat_cond c = true -> h_build c = Some b ->
+  usage_lines (S f) c =
+  (dO own <- (if own_cond c then dO l <- write_arg_usage c true; Some [l] else Some []);
+   dO blk <- block_of_built f b; Some (own ++ blk)).
+Proof. exact usage_lines_built_block. Qed.
+Print Assumptions C12_flatten_usage_of_built.
+
+Theorem C12_flatten_usage_same_build : forall f c c',
+  flat_cond c = true -> flat_cond c' = true -> h_build c = h_build c' ->
+  (if own_cond c then Some (write_arg_usage c true) else None) = (if own_cond c' then Some (write_arg_usage c' true) else None) ->
+  usage_lines (S f) c = usage_lines (S f) c'.
+Proof. exact usage_lines_of_built. Qed.
+Print Assumptions C12_flatten_usage_same_build.
+
+(** the flattened sections.  Class [flat_tree_ok dw b]: every argument of every node of the built clone that gets a
+    section ([fsec_of]: not hidden, below nodes that have the setting) renders ([arg_ok]) within the format-width limit.
+    Total; every section belongs to such a node; every row comes from an argument of that node that is shown in the
+    mode and not global, lists only possible values that are not hidden, padding <= widest left column + 6 *)
+Theorem C12_flatten_sections_safe : forall dw cx c, flat_tree_ok dw c ->
+  exists fs, write_flat_subcommands dw cx c = Some fs
+             /\ forall f, In f fs -> exists sc, fsec_of c sc /\ fsec_from dw (cx_use_long cx) sc f.
+Proof. exact flat_sections_safe. Qed.
+Print Assumptions C12_flatten_sections_safe.
+
+(** with distinct sibling names / argument ids where the flattening goes, every such node has its section, with a
+    row for every argument that is shown in the mode and not global *)
+Theorem C12_flatten_sections_complete : forall dw cx c x, fsec_of c x ->
+  forall fs, flat_distinct c -> write_flat_subcommands dw cx c = Some fs ->
+  exists f, In f fs /\ fs_title f = usage_name_fallback x /\ fs_about f = flat_about x
+            /\ forall a, In a (hc_args x) -> should_show_arg (cx_use_long cx) a = true -> ha_global a = false ->
+                         exists r, In r (fs_rows f) /\ r_id r = ha_id a.
+Proof. exact flat_sections_complete. Qed.
+Print Assumptions C12_flatten_sections_complete.
+
+(** [C12_padding_safe] with [flatten_help] in the class: the flattened screen renders, for every display-width
+    function, width and mode ([usage_ok]: the arguments of every node that writes a usage line render and its
+    references resolve, [build()] of every flattened node succeeds) *)
+Theorem C12_padding_safe_flat : forall dw c b use_long w,
+  cmd_ok dw c -> flat_cond c = true -> h_build c = Some b -> flat_tree_ok dw b ->
+  usage_ok tree_fuel c ->
+  write_help_flat dw c use_long w <> None.
+Proof. exact padding_safe_flat. Qed.
+Print Assumptions C12_padding_safe_flat.
+
+Theorem C12_padding_bounded_flat : forall dw c b use_long w s,
+  cmd_ok dw c -> flat_cond c = true -> h_build c = Some b -> flat_tree_ok dw b ->
+  write_help_flat dw c use_long w = Some s ->
+  (forall sec r, In sec (fsc_sections s) -> In r (s_rows sec) -> row_of_arg dw use_long c r)
+  /\ (forall f, In f (fsc_flat s) -> exists sc, fsec_of b sc /\ fsec_from dw use_long sc f).
+Proof. exact padding_bounded_flat. Qed.
+Print Assumptions C12_padding_bounded_flat.
+
+(** non-vacuity.  [fx_root]: `p` (flatten_help, `--v`, required `<inp>`) with `sa` (flatten_help, `--out <o>`, subcommands
+    `sb` and hidden `h2`), hidden `h1`, `sq` (flags `--lq` / `-q`); [fx_one]: the same with `sa` not flattened *)
+Theorem C12_flatten_satisfiable :
+  cmd_ok len fx_c /\ refs_ok fx_c = true /\ flat_cond fx_c = true /\ h_build fx_c = Some fx_b
+  /\ flat_tree_ok len fx_b /\ usage_ok tree_fuel fx_c /\ flat_distinct fx_b.
+Proof. exact fx_flat_hyps. Qed.
+Print Assumptions C12_flatten_satisfiable.
+
+Theorem C12_flatten_one_level_satisfiable :
+  hc_built fx_c1 = true /\ flat_cond fx_c1 = true
+  /\ (forall sc, In sc (hc_subs fx_c1) -> hc_flatten sc = false /\ hc_usage_name sc = None)
+  /\ own_cond fx_c1 = true
+  /\ map hc_name (visible_subs fx_c1) = [[115;97]; [115;113]; s_help]
+  /\ option_map (map (hd [])) (usage_lines 3 fx_c1)
+     = Some [[112]; [112;32;60;105;110;112;62;32;115;97];
+             [112;32;60;105;110;112;62;32;123;115;113;124;45;45;108;113;124;45;113;125];
+             [112;32;60;105;110;112;62;32] ++ s_help].
+Proof. exact fx_one_hyps. Qed.
+Print Assumptions C12_flatten_one_level_satisfiable.
+
+(** the nested example, byte for byte what the real crate prints (corpus/C12/help-flatten.examples.cases):
+    `p [OPTIONS] <inp>` / `p <inp> sa [OPTIONS]` / `p sa sb [OPTIONS]` / `p sa help [COMMAND]` / `p <inp> {sq|--lq|-q}` /
+    `p <inp> help [COMMAND]...` -- the two shapes of the generated help subcommand side by side *)
+Theorem C12_flatten_example_usage :
+  option_map usage_text (render_usage_flat fx_root)
+  = Some ([112;32;91;79;80;84;73;79;78;83;93;32;60;105;110;112;62]
+          ++ s_usage_sep ++ [112;32;60;105;110;112;62;32;115;97;32;91;79;80;84;73;79;78;83;93]
+          ++ s_usage_sep ++ [112;32;115;97;32;115;98;32;91;79;80;84;73;79;78;83;93]
+          ++ s_usage_sep ++ [112;32;115;97;32;104;101;108;112;32;91;67;79;77;77;65;78;68;93]
+          ++ s_usage_sep ++ [112;32;60;105;110;112;62;32;123;115;113;124;45;45;108;113;124;45;113;125]
+          ++ s_usage_sep ++ [112;32;60;105;110;112;62;32;104;101;108;112;32;91;67;79;77;77;65;78;68;93;46;46;46]).
+Proof. exact fx_usage_text. Qed.
+Print Assumptions C12_flatten_example_usage.
+
+Theorem C12_flatten_example_sections :
+  match render_help_flat len fx_root false 80 with
+  | Some s => (map s_title (fsc_sections s), map (fun f => (fs_title f, map r_id (fs_rows f))) (fsc_flat s))
+  | None => ([], [])
+  end
+  = ([s_arguments; s_options],
+     [([112;32;60;105;110;112;62;32;115;97], [[111]; s_help]);
+      ([112;32;115;97;32;115;98], [[122]; s_help]);
+      ([112;32;115;97;32] ++ s_help, []);
+      ([112;32;60;105;110;112;62;32;123;115;113;124;45;45;108;113;124;45;113;125], [s_help]);
+      ([112;32;60;105;110;112;62;32] ++ s_help, [s_subcommand])]).
+Proof. exact fx_sections. Qed.
+Print Assumptions C12_flatten_example_sections.
